@@ -246,6 +246,7 @@ func (em *Emitter) sortOf(t types.Type) string {
 }
 
 func (em *Emitter) structSort(t types.Type) *structInfo {
+	t = types.Unalias(t) // an alias of a named struct is that struct
 	st := t.Underlying().(*types.Struct)
 	key := typeName(t)
 	if _, named := t.(*types.Named); !named {
